@@ -110,6 +110,33 @@ func (m *C05) scan(e *eng.Engine, s *obs.Snapshot, where string) {
 	}
 }
 
+// BackingScan is the exact backing equation for every basket ("" list when it holds).
+func BackingScan(s *obs.Snapshot) []string {
+	v := s.V()
+	tot := basketTotals(v)
+	var bad []string
+	for _, b := range v.BasketList {
+		want := new(big.Rat).Mul(tot[b.Id], tokenFactor(v, b.CreditTypeAbbrev))
+		got := new(big.Rat).SetInt(s.SupplyOf(b.BasketDenom))
+		if !eq(want, got) {
+			bad = append(bad, fmt.Sprintf("basket %s: bank supply %s != %s", b.BasketDenom, rs(got), rs(want)))
+		}
+	}
+	return bad
+}
+
+// AnyBasketExtreme: some basket's token total needs more than 34 significant digits.
+func AnyBasketExtreme(s *obs.Snapshot) bool {
+	v := s.V()
+	tot := basketTotals(v)
+	for _, b := range v.BasketList {
+		if ref.SigDigits(new(big.Rat).Mul(tot[b.Id], tokenFactor(v, b.CreditTypeAbbrev))) > 34 {
+			return true
+		}
+	}
+	return false
+}
+
 func (m *C05) exactBroken(s *obs.Snapshot) bool {
 	v := s.V()
 	tot := basketTotals(v)
